@@ -119,6 +119,75 @@ def real_kill(args):
         shutil.rmtree(top, ignore_errors=True)
 
 
+def same_lab_dump(storage_dir: str, kind: str, n: int, k: int):
+    """Isolated interpreter, ONE Lab object (fork backend): cache the task, re-run it with
+    bust_cache while its worker kills itself at the k-th line of the save, then ask the same Lab."""
+    import labtech
+    from .. import dtypes as A
+    silence_labtech()
+    lab = labtech.Lab(storage=storage_dir, runner_backend='fork', max_workers=1, notebook=False, context={'epoch': 1})
+    t = A.KSaver(kind=kind, n=n)
+    r1 = lab.run_tasks([t], disable_progress=True, disable_top=True)
+    # the caller looks at the cache between the runs (any answer remembered inside the Lab is now stale-able)
+    seen_before = [bool(lab.is_cached(t)), any(x == t for x in lab.cached_tasks([A.KSaver]))]
+    r1b = lab.run_tasks([A.KSaver(kind=kind, n=n)], disable_progress=True, disable_top=True)
+    lab.context['epoch'] = 2
+    lab.context['kill_at'] = k
+    r2 = lab.run_tasks([t], bust_cache=True, disable_progress=True, disable_top=True)
+    lab.context['kill_at'] = None
+    lab.context['epoch'] = 3
+    out = {'first_ok': t in r1 and all(seen_before) and len(r1b) == 1, 'second_returned': t in r2}
+    try:
+        out['is_cached'] = bool(lab.is_cached(t))
+    except BaseException as e:  # noqa
+        out['is_cached_error'] = f'{type(e).__name__}: {e}'
+        out['is_cached'] = False
+    try:
+        out['listed'] = any(x == t for x in lab.cached_tasks([A.KSaver]))
+    except BaseException as e:  # noqa
+        out['listed_error'] = f'{type(e).__name__}: {e}'
+        out['listed'] = False
+    if out['is_cached'] or out['listed']:
+        t3 = A.KSaver(kind=kind, n=n)
+        try:
+            r3 = lab.run_tasks([t3], disable_progress=True, disable_top=True)
+            out['loaded'] = t3 in r3
+            out['epoch_loaded'] = r3[t3][4] if t3 in r3 else None
+        except BaseException as e:  # noqa
+            out['load_error'] = f'{type(e).__name__}: {e}'
+            out['loaded'] = False
+    print(json.dumps(out))
+
+
+def same_lab_case(args):
+    kind, n, k = args
+    from ..realrun import py_env, run_isolated
+    tmp = tmpdir('c13l_')
+    try:
+        rc, so, se = run_isolated([sys.executable, '-m', 'verif_lt.props.c13', '--same-lab', os.path.join(tmp, 'st'), kind, str(n), str(k)],
+                                  env=py_env(0), timeout=180)
+        d = f'KSaver({kind},{n}) one Lab object (fork backend): cached, then bust_cache re-run whose worker is SIGKILLed at save line #{k}'
+        if rc != 0:
+            return [('same-lab-run-failed:overwrite', f'{d}: exited {rc}: {se[-400:]}')], False
+        o = json.loads(so.strip().splitlines()[-1])
+        res = []
+        if not o['first_ok']:
+            res.append(('same-lab-first-run-not-cached:overwrite', f'{d}: the first (undisturbed) run was not cached / reloadable'))
+        if 'is_cached_error' in o:
+            res.append(('is_cached-raised:overwrite', f'{d}: {o["is_cached_error"]}'))
+        if 'listed_error' in o:
+            res.append(('cached_tasks-raised:overwrite', f'{d}: {o["listed_error"]}'))
+        if o['is_cached'] or o['listed']:
+            if not o.get('loaded'):
+                res.append(('reported-cached-but-unloadable:overwrite', f'{d}: the same Lab reports the task as cached (is_cached={o["is_cached"]}, listed={o["listed"]}) '
+                                                                         f'but loading fails {o.get("load_error", "")}'))
+            elif o.get('epoch_loaded') not in (1, 2):
+                res.append(('reported-cached-but-executed:overwrite', f'{d}: reported as cached but the value was recomputed'))
+        return res, not o['second_returned']
+    finally:
+        shutil.rmtree(tmp, ignore_errors=True)
+
+
 def count_lines(case):
     top = tmpdir('c13c_')
     try:
@@ -179,16 +248,28 @@ def run(tier: str, seed: int) -> Result:
                 raise HarnessError(f'real SIGKILL of {case} (overwrite={ow}) at line #{k} left a state that is not a prefix of the raw-operation log')
             for key, msg in res:
                 viols.append(Violation('C13', key, msg, {'tier': tier, 'clause': key, 'msg': msg}, size=k))
+        # one Lab object surviving a worker killed mid-overwrite (real fork backend)
+        nl = count_lines('pickle-small')
+        ks = list(range(1, nl + 1)) if tier != 'quick' else list(range(1, nl + 1, 5))
+        n_same = n_same_killed = 0
+        for res, killed in pmap(same_lab_case, [('small', 3, k) for k in ks] + ([('multi', 200, k) for k in ks] if tier != 'quick' else [])):
+            n_same += 1
+            n_same_killed += 1 if killed else 0
+            for key, msg in res:
+                viols.append(Violation('C13', key, msg, {'tier': tier, 'clause': key, 'msg': msg}, size=2000))
     finally:
         for t in tops:
             shutil.rmtree(t, ignore_errors=True)
     cov = {
-        'evaluations': n_states + n_kills,
+        'same_lab_real_kill_histories': n_same,
+        'same_lab_histories_in_which_the_worker_died': n_same_killed,
+        'evaluations': n_states + n_kills + n_same,
         'distinct_nontrivial': n_states,
         'rule': ('crash states = every prefix of the raw-operation log (mkdir/open-trunc/write/close) of a real save + 3 torn variants per write + flushed variant per '
                  'Python-level write call; x {pickle small, json small, pickle multi-frame (+json multi thorough)} x {first save, overwrite}; each materialised and '
                  'checked by the recovery oracle (is_cached, cached_tasks, run_tasks on a fresh Lab); real SIGKILLs of a forked saver at traced lines must leave one '
-                 'of the prefix states; distinct_nontrivial = materialised crash states'),
+                 'of the prefix states; plus histories on ONE Lab object over the real fork backend (cache, re-run with bust_cache whose worker SIGKILLs itself at save line k, then ask the same Lab); '
+                 'distinct_nontrivial = materialised crash states'),
         'samples': samples,
         'real_kills': n_kills,
         'real_kill_states_matching_a_materialised_prefix': validated,
@@ -238,3 +319,8 @@ def replay(payload) -> int:
     keys = sorted({v.key for v in r.violations})
     print('violation keys now:', keys)
     return 1 if payload.get('clause') in keys else 0
+
+
+if __name__ == '__main__':
+    if len(sys.argv) >= 6 and sys.argv[1] == '--same-lab':
+        same_lab_dump(sys.argv[2], sys.argv[3], int(sys.argv[4]), int(sys.argv[5]))
